@@ -10,7 +10,7 @@ Definition inactive_check (s : st) : bool :=
 
 Section S.
   Variable faults : nat -> fault.
-  Variable lst : nat.
+  Variable lst : list lbeh.
   Notation exec_path := (exec_path faults lst).
   Notation step := (step faults lst).
 
@@ -51,11 +51,11 @@ Section S.
   (* general facts about the execute path *)
   Lemma exec_path_gen : forall s s' c, exec_path s = (s', c) ->
     s_nested s' = s_nested s /\
-    (c = RDisc -> s_cur s' = None) /\
+    (is_disc c = true -> s_cur s' = None) /\
     (c = ROk -> (exists x, s_cur s' = Some x) /\ s_txn s' = TActive) /\
     (s_txn s' = s_txn s \/ (s_txn s = TNone /\ s_txn s' = TActive)) /\
     c <> RInvalidReq /\
-    (c <> RDisc -> s_invt s' = s_invt s).
+    (is_disc c = false -> s_invt s' = s_invt s).
   Proof.
     intros s s' c H. destruct (ensure faults lst s) as [s1 e] eqn:He.
     destruct (ensure_frame _ _ _ _ _ He) as (A & B & C & D & E).
@@ -63,8 +63,8 @@ Section S.
     - unfold Disconnect.exec_path in H. rewrite He in H. injection H as <- <-.
       destruct (D c0 eq_refl) as (D1 & D2 & D3).
       refine (conj B (conj _ (conj _ (conj (or_introl A) (conj _ _))))); auto.
-      + intros ->. destruct D3 as [|[|]]; discriminate.
-      + intros ->. destruct D3 as [|[|]]; discriminate.
+      + intros ->. destruct D3 as [X|X]; [destruct X|discriminate].
+      + intros ->. destruct D3 as [X|X]; [destruct X|discriminate].
     - destruct (exec_after_ensure s s1 He) as (cid & st0 & Hc & Heq). rewrite Heq in H.
       destruct (inactive_check s1) eqn:Ei.
       + injection H as <- <-. refine (conj B (conj _ (conj _ (conj (or_introl A) (conj _ _))))); auto; discriminate.
@@ -73,57 +73,72 @@ Section S.
         assert (Hc2 : s_cur (autobegin s1) = Some (cid, st0)) by congruence.
         assert (Htx : s_txn (autobegin s1) = s_txn s \/ (s_txn s = TNone /\ s_txn (autobegin s1) = TActive)).
         { destruct F9 as [F9|[F9 F9']]; [left|right]; split || idtac; congruence. }
-        destruct (coh_spec faults lst _ _ _ _ _ _ Hc2 H) as [(-> & -> & _)|[(-> & -> & _)|(-> & -> & _)]]; cbn;
-          (refine (conj _ (conj _ (conj _ (conj _ (conj _ _))))); try discriminate; try congruence; auto).
-        intros _. split; [eauto|exact F10].
+        destruct (coh_spec faults lst _ _ _ _ _ _ Hc2 H) as [(-> & -> & _)|[(El & Ed & -> & _)|(El & Ed & -> & _)]]; cbn.
+        * refine (conj _ (conj _ (conj _ (conj Htx (conj _ _))))); try discriminate; try congruence.
+          intros _. split; [eauto|exact F10].
+        * refine (conj _ (conj _ (conj _ (conj Htx (conj _ _))))); try congruence.
+          -- intros ->. destruct El.
+          -- intros ->. destruct El.
+        * refine (conj _ (conj _ (conj _ (conj Htx (conj _ _))))); try congruence.
+          -- intros ->. destruct El.
+          -- intros ->. destruct El.
   Qed.
 
   (* ---- T1: a disconnect-classified error leaves the Connection invalidated ---- *)
-  Lemma coh_disc_cur : forall k cid st0 s s', s_cur s = Some (cid, st0) ->
-    call_or_handle faults lst k cid s = (s', RDisc) -> s_cur s' = None.
+  Lemma coh_disc_cur : forall k cid st0 s s' c, s_cur s = Some (cid, st0) ->
+    call_or_handle faults lst k cid s = (s', c) -> is_disc c = true -> s_cur s' = None.
   Proof.
-    intros k cid st0 s s' Hc H.
-    destruct (coh_spec faults lst _ _ _ _ _ _ Hc H) as [(E & _)|[(E & _)|(_ & -> & _)]]; try discriminate. reflexivity.
+    intros k cid st0 s s' c Hc H Hd.
+    destruct (coh_spec faults lst _ _ _ _ _ _ Hc H) as [(-> & _)|[(_ & E & _)|(_ & _ & -> & _)]];
+      try discriminate; try congruence. reflexivity.
   Qed.
 
-  Theorem invalidated_after_disconnect : forall o s s',
-    step o s = (s', RDisc) -> invalidated s' = true.
+  Lemma pass_code_cases : forall c, pass_code lst c = c \/ exists d, pass_code lst c = RCustom d.
   Proof.
-    intros o s s' H. unfold invalidated.
+    intros c. unfold pass_code. destruct (run_chain lst false true false) as [[d ip] [|]]; eauto.
+  Qed.
+
+  Theorem invalidated_after_disconnect : forall o s s' c,
+    step o s = (s', c) -> is_disc c = true -> invalidated s' = true.
+  Proof.
+    intros o s s' c H Hd. unfold invalidated.
     assert (G : s_cur s' = None); [|rewrite G; reflexivity].
     destruct o; cbn [Disconnect.step] in H.
     - destruct (exec_path_gen _ _ _ H) as (_ & D & _). auto.
-    - unfold begin_op in H. destruct (s_txn s); try discriminate.
+    - unfold begin_op in H. destruct (s_txn s); try (injection H as _ <-; discriminate).
       destruct (ensure faults lst s) as [s1 e] eqn:He. destruct (ensure_frame _ _ _ _ _ He) as (_ & _ & _ & D & _).
-      destruct e as [c0|]; [|discriminate]. injection H as <- ->. apply (D RDisc eq_refl).
-    - unfold commit_op in H. destruct (s_txn s); try discriminate.
-      destruct (s_cur s) as [[cid st0]|] eqn:Hc; [|discriminate].
-      destruct (call_or_handle faults lst K_COMMIT cid s) as [s1 c] eqn:Hcoh.
-      destruct c; try discriminate. injection H as <-. cbn. eapply coh_disc_cur; eauto.
-    - unfold rollback_op in H. destruct (s_txn s); try discriminate.
-      destruct (s_cur s) as [[cid st0]|] eqn:Hc; [|discriminate].
-      destruct (call_or_handle faults lst K_ROLLBACK cid s) as [s1 c] eqn:Hcoh.
-      destruct c; try discriminate. injection H as <-. cbn. eapply coh_disc_cur; eauto.
+      destruct e as [c0|]; [|injection H as _ <-; discriminate]. injection H as <- <-. apply (D c0 eq_refl).
+    - unfold commit_op in H. destruct (s_txn s); try (injection H as _ <-; discriminate).
+      destruct (s_cur s) as [[cid st0]|] eqn:Hc; [|injection H as <- _; exact Hc].
+      destruct (call_or_handle faults lst K_COMMIT cid s) as [s1 c1] eqn:Hcoh.
+      assert (X : s' = set_txn s1 TNone [] /\ c = ROk \/ s' = set_txn s1 TInactive [] /\ c = c1)
+        by (destruct c1; injection H as <- <-; auto).
+      destruct X as [[_ ->]|[-> ->]]; [discriminate|]. cbn. eapply coh_disc_cur; eauto.
+    - unfold rollback_op in H. destruct (s_txn s); try (injection H as _ <-; discriminate).
+      destruct (s_cur s) as [[cid st0]|] eqn:Hc; [|injection H as _ <-; discriminate].
+      destruct (call_or_handle faults lst K_ROLLBACK cid s) as [s1 c1] eqn:Hcoh.
+      assert (X : s' = set_txn s1 TNone [] /\ c = ROk \/ s' = set_txn s1 TNone (s_nested s1) /\ c = c1)
+        by (destruct c1; injection H as <- <-; auto).
+      destruct X as [[_ ->]|[-> ->]]; [discriminate|]. cbn. eapply coh_disc_cur; eauto.
     - unfold savepoint_op in H.
       destruct (match s_txn s with TNone => begin_op faults lst s | _ => (s, ROk) end) as [s1 c1] eqn:Hb.
-      destruct c1.
-      + destruct (exec_path s1) as [s2 c] eqn:He. destruct (exec_path_gen _ _ _ He) as (_ & D & _).
-        destruct c; try discriminate. injection H as <-. auto.
-      + discriminate.
-      + injection H as <-. destruct (s_txn s) eqn:Et; [|discriminate|discriminate].
+      assert (Y : c1 = ROk \/ (s' = s1 /\ c = c1 /\ c1 <> ROk)).
+      { destruct c1; [left; reflexivity|right..]; injection H as <- <-; repeat split; discriminate. }
+      destruct Y as [->|(-> & -> & Hn)].
+      + destruct (exec_path s1) as [s2 c2] eqn:He. destruct (exec_path_gen _ _ _ He) as (_ & D & _).
+        destruct c2; injection H as <- <-; try discriminate; cbn; auto.
+      + destruct (s_txn s) eqn:Et; [|injection Hb as _ <-; congruence|injection Hb as _ <-; congruence].
         unfold begin_op in Hb. rewrite Et in Hb.
         destruct (ensure faults lst s) as [s2 e] eqn:He. destruct (ensure_frame _ _ _ _ _ He) as (_ & _ & _ & D & _).
-        destruct e as [c0|]; [|discriminate]. injection Hb as <- ->. apply (D RDisc eq_refl).
-      + discriminate.
-      + discriminate.
-    - unfold rollback_sp_op in H. destruct (s_nested s) as [|a rest]; [discriminate|].
+        destruct e as [c0|]; [|injection Hb as _ <-; congruence]. injection Hb as <- <-. apply (D c0 eq_refl).
+    - unfold rollback_sp_op in H. destruct (s_nested s) as [|a rest]; [injection H as _ <-; discriminate|].
       destruct (a && match s_txn s with TActive => true | _ => false end && match s_cur s with Some _ => true | None => false end);
-        [|discriminate].
-      destruct (exec_path s) as [s1 c] eqn:He. destruct (exec_path_gen _ _ _ He) as (_ & D & _).
-      injection H as <- ->. cbn. auto.
-    - unfold release_sp_op in H. destruct (s_nested s) as [|[|] rest]; try discriminate.
-      destruct (exec_path s) as [s1 c] eqn:He. destruct (exec_path_gen _ _ _ He) as (_ & D & _).
-      destruct c; try discriminate. injection H as <-. cbn. auto.
+        [|injection H as _ <-; discriminate].
+      destruct (exec_path s) as [s1 c1] eqn:He. destruct (exec_path_gen _ _ _ He) as (_ & D & _).
+      injection H as <- <-. cbn. auto.
+    - unfold release_sp_op in H. destruct (s_nested s) as [|[|] rest]; try (injection H as _ <-; discriminate).
+      destruct (exec_path s) as [s1 c1] eqn:He. destruct (exec_path_gen _ _ _ He) as (_ & D & _).
+      destruct c1; injection H as <- <-; try discriminate; cbn; auto.
   Qed.
 
   (* ---- T3: blocked until rollback ---- *)
@@ -131,7 +146,7 @@ Section S.
 
   Lemma blocked_step : forall o s s' c, blocked s -> o <> ORollback -> step o s = (s', c) ->
     blocked s' /\ s_log s' = s_log s /\ s_n s' = s_n s /\ s_idle s' = s_idle s /\
-    (raising_op o -> c = RPending \/ c = RInvalidReq) /\
+    (raising_op o -> c = RPending \/ c = RInvalidReq \/ exists d, c = RCustom d) /\
     (o = OReleaseSp -> s_nested s <> [] -> c = RPending).
   Proof.
     intros o s s' c Hb Ho H. pose proof Hb as [Hc Ht]. unfold raising_op.
@@ -141,7 +156,10 @@ Section S.
     - unfold begin_op in H. destruct (s_txn s) eqn:Et; [congruence| |]; injection H as <- <-;
         (repeat split; auto; try discriminate; try congruence).
     - unfold commit_op in H. destruct (s_txn s) eqn:Et; [congruence| |].
-      + rewrite Hc in H. injection H as <- <-. repeat split; auto; try discriminate.
+      + rewrite Hc in H. injection H as <- <-.
+        refine (conj _ (conj _ (conj _ (conj _ (conj _ _))))); auto; try discriminate.
+        * split; [exact Hc|discriminate].
+        * intros _. destruct (pass_code_cases RPending) as [->|[d ->]]; eauto.
       + injection H as <- <-. repeat split; auto; try discriminate; congruence.
     - unfold savepoint_op in H. destruct (s_txn s) eqn:Et; [congruence| |];
         rewrite (exec_blocked s Hb) in H; injection H as <- <-;
@@ -169,7 +187,7 @@ Section S.
   Theorem blocked_until_rollback : forall s h1 o s2 c, blocked s -> ~ In ORollback h1 -> o <> ORollback ->
     step o (final faults lst h1 s) = (s2, c) ->
     s_log s2 = s_log s /\ s_n s2 = s_n s /\ blocked s2 /\
-    (raising_op o -> c = RPending \/ c = RInvalidReq) /\
+    (raising_op o -> c = RPending \/ c = RInvalidReq \/ exists d, c = RCustom d) /\
     (o = OReleaseSp -> s_nested (final faults lst h1 s) <> [] -> c = RPending).
   Proof.
     intros s h1 o s2 c Hb Hn Ho Hs. destruct (blocked_final h1 s Hb Hn) as (B1 & L1 & N1).
@@ -178,11 +196,11 @@ Section S.
   Qed.
 
   (* a disconnect that hits while a transaction is in progress leaves the connection blocked *)
-  Theorem disconnect_in_transaction_blocks : forall o s s',
-    step o s = (s', RDisc) -> in_txn s' = true -> blocked s'.
+  Theorem disconnect_in_transaction_blocks : forall o s s' c,
+    step o s = (s', c) -> is_disc c = true -> in_txn s' = true -> blocked s'.
   Proof.
-    intros o s s' H Ht. split.
-    - pose proof (invalidated_after_disconnect o s s' H) as Hi. unfold invalidated in Hi.
+    intros o s s' c H Hd Ht. split.
+    - pose proof (invalidated_after_disconnect o s s' c H Hd) as Hi. unfold invalidated in Hi.
       destruct (s_cur s'); [discriminate|reflexivity].
     - unfold in_txn in Ht. destruct (s_txn s'); [discriminate|discriminate|discriminate].
   Qed.
@@ -193,8 +211,8 @@ Section S.
     intros k cid s s' c H. unfold call_or_handle, dbcall in H.
     destruct (faults (S (s_n s))).
     - injection H as <- _. auto.
-    - destruct (handle_spec _ _ _ _ _ H) as [[_ ->]|[(_ & _ & ->)|(_ & cid' & st' & _ & ->)]]; auto.
-    - destruct (handle_spec _ _ _ _ _ H) as [[_ ->]|[(_ & _ & ->)|(_ & cid' & st' & _ & ->)]]; auto.
+    - destruct (handle_spec _ _ _ _ _ H) as (_ & [[_ ->]|[(_ & _ & ->)|(_ & cid' & st' & _ & ->)]]); auto.
+    - destruct (handle_spec _ _ _ _ _ H) as (_ & [[_ ->]|[(_ & _ & ->)|(_ & cid' & st' & _ & ->)]]); auto.
   Qed.
 
   (* the transaction in progress at the failure is still there afterwards (any operation but rollback) *)
@@ -257,7 +275,7 @@ Section S.
     assert (Hc2 : s_cur (autobegin s1) = Some (cid, st0)) by congruence.
     assert (Fok : faults (S (s_n (autobegin s1))) = FOk).
     { rewrite F3'. destruct G as [-> | ->]; assumption. }
-    destruct (coh_spec faults lst _ _ _ _ _ _ Hc2 Hcoh) as [(-> & -> & _)|[(_ & _ & X)|(_ & _ & X)]]; try congruence.
+    destruct (coh_spec faults lst _ _ _ _ _ _ Hc2 Hcoh) as [(-> & -> & _)|[(_ & _ & _ & X)|(_ & _ & _ & X)]]; try congruence.
     exists (called K_EXEC cid (autobegin s1)). rewrite Heq. split; [reflexivity|].
     unfold invalidated, in_txn. cbn. rewrite Hc2, (F10 Hi). auto.
   Qed.
@@ -279,14 +297,14 @@ Section S.
     s_clock s' = s_clock s.
 
   Lemma coh_same_pool : forall k cid st0 s s' c, s_cur s = Some (cid, st0) ->
-    call_or_handle faults lst k cid s = (s', c) -> c <> RDisc -> same_pool s s'.
+    call_or_handle faults lst k cid s = (s', c) -> is_disc c = false -> same_pool s s'.
   Proof.
     intros k cid st0 s s' c Hc H Hn.
-    destruct (coh_spec faults lst _ _ _ _ _ _ Hc H) as [(_ & -> & _)|[(_ & -> & _)|(-> & _)]]; [| |congruence];
+    destruct (coh_spec faults lst _ _ _ _ _ _ Hc H) as [(_ & -> & _)|[(_ & _ & -> & _)|(_ & E & _)]]; [| |congruence];
       unfold same_pool; cbn; auto.
   Qed.
 
-  Lemma exec_live_same_pool : forall s s' c, s_cur s <> None -> exec_path s = (s', c) -> c <> RDisc -> same_pool s s'.
+  Lemma exec_live_same_pool : forall s s' c, s_cur s <> None -> exec_path s = (s', c) -> is_disc c = false -> same_pool s s'.
   Proof.
     intros s s' c Hc H Hn. destruct (s_cur s) as [[cid st0]|] eqn:E; [|congruence].
     rewrite (exec_live s cid st0 E) in H. destruct (inactive_check s).
@@ -298,7 +316,7 @@ Section S.
   Qed.
 
   Theorem non_disconnect_leaves_pool_untouched : forall o s s' c,
-    s_cur s <> None -> step o s = (s', c) -> c <> RDisc -> same_pool s s'.
+    s_cur s <> None -> step o s = (s', c) -> is_disc c = false -> same_pool s s'.
   Proof.
     intros o s s' c Hc H Hn.
     assert (Refl : same_pool s s) by (unfold same_pool; auto).
@@ -309,13 +327,13 @@ Section S.
     - unfold commit_op in H. destruct (s_txn s); try (injection H as <- _; exact Refl).
       destruct (s_cur s) as [[cid st0]|] eqn:E; [|congruence].
       destruct (call_or_handle faults lst K_COMMIT cid s) as [s1 c1] eqn:Hcoh.
-      assert (c1 <> RDisc) by (destruct c1; injection H as _ <-; congruence).
+      assert (is_disc c1 = false) by (destruct c1; injection H as _ <-; (reflexivity || exact Hn)).
       pose proof (coh_same_pool _ _ _ _ _ _ E Hcoh H0) as P.
       destruct c1; injection H as <- _; exact P.
     - unfold rollback_op in H. destruct (s_txn s); try (injection H as <- _; exact Refl).
       destruct (s_cur s) as [[cid st0]|] eqn:E; [|congruence].
       destruct (call_or_handle faults lst K_ROLLBACK cid s) as [s1 c1] eqn:Hcoh.
-      assert (c1 <> RDisc) by (destruct c1; injection H as _ <-; congruence).
+      assert (is_disc c1 = false) by (destruct c1; injection H as _ <-; (reflexivity || exact Hn)).
       pose proof (coh_same_pool _ _ _ _ _ _ E Hcoh H0) as P.
       destruct c1; injection H as <- _; exact P.
     - unfold savepoint_op in H.
@@ -325,7 +343,7 @@ Section S.
         unfold begin_op. rewrite Et, (ensure_live faults lst s Hc). eexists. split; [reflexivity|]. split; [exact Refl|exact Hc]. }
       destruct Hb as (s1 & Hb1 & P1 & Hc1). rewrite Hb1 in H.
       destruct (exec_path s1) as [s2 c2] eqn:He.
-      assert (c2 <> RDisc) by (destruct c2; injection H as _ <-; congruence).
+      assert (is_disc c2 = false) by (destruct c2; injection H as _ <-; (reflexivity || exact Hn)).
       pose proof (exec_live_same_pool _ _ _ Hc1 He H0) as P2.
       assert (P : same_pool s s2) by (unfold same_pool in *; intuition congruence).
       destruct c2; injection H as <- _; exact P.
@@ -335,7 +353,7 @@ Section S.
       exact (exec_live_same_pool _ _ _ Hc He Hn).
     - unfold release_sp_op in H. destruct (s_nested s) as [|[|] rest]; try (injection H as <- _; exact Refl).
       destruct (exec_path s) as [s1 c1] eqn:He.
-      assert (c1 <> RDisc) by (destruct c1; injection H as _ <-; congruence).
+      assert (is_disc c1 = false) by (destruct c1; injection H as _ <-; (reflexivity || exact Hn)).
       pose proof (exec_live_same_pool _ _ _ Hc He H0) as P.
       destruct c1; injection H as <- _; exact P.
   Qed.
